@@ -272,21 +272,21 @@ func (ex *Exec) builtin(x ssa.Value, f *ssa.Builtin, cc *ssa.CallCommon, h *Heap
 		v := ex.val(cc.Args[0])
 		switch v.Sort {
 		case sStr:
-			ex.vals[x] = q.def("len", strLen(v))
+			ex.vals[x] = q.def("len", ex.asVal(strLen(v), x.Type()))
 		case sSlice:
-			ex.vals[x] = q.def("len", slLen(v))
+			ex.vals[x] = q.def("len", ex.asVal(slLen(v), x.Type()))
 		default:
 			switch t := cc.Args[0].Type().Underlying().(type) {
 			case *types.Map:
 				_ = t
 				q.declFun("uf_maplen", "(Int Int) Int")
-				r := ex.havocVal("maplen", types.Typ[types.Int], reach)
-				q.assume(le(tInt(0), r))
-				ex.vals[x] = r
+				r := ex.q.fresh("maplen", sInt)
+				q.assume(and(le(tInt(0), r), le(r, tIntS(maxLen))))
+				ex.vals[x] = ex.asVal(r, x.Type())
 			case *types.Array:
-				ex.vals[x] = tInt(t.Len())
+				ex.vals[x] = ex.intLit(t.Len(), x.Type())
 			case *types.Pointer:
-				ex.vals[x] = tInt(t.Elem().Underlying().(*types.Array).Len())
+				ex.vals[x] = ex.intLit(t.Elem().Underlying().(*types.Array).Len(), x.Type())
 			default:
 				unsupported("len of %s", cc.Args[0].Type())
 			}
@@ -296,7 +296,7 @@ func (ex *Exec) builtin(x ssa.Value, f *ssa.Builtin, cc *ssa.CallCommon, h *Heap
 		if v.Sort != sSlice {
 			unsupported("cap of %s", cc.Args[0].Type())
 		}
-		ex.vals[x] = q.def("cap", slCap(v))
+		ex.vals[x] = q.def("cap", ex.asVal(slCap(v), x.Type()))
 	case "append":
 		ex.appendBuiltin(x, cc, h, reach)
 	case "copy":
@@ -320,16 +320,17 @@ func (ex *Exec) builtin(x ssa.Value, f *ssa.Builtin, cc *ssa.CallCommon, h *Heap
 		q.assume(Term{fmt.Sprintf("(forall ((i Int)) (! (= (select %s i) (ite (and (<= %s i) (< i (+ %s %s))) %s (select %s i))) :pattern ((select %s i))))",
 			na.S, slOff(dst).S, slOff(dst).S, n.S, srcAt(sub(iv, slOff(dst))), old.S, na.S), sBool})
 		q.heapSet(h, key, store(m, slBase(dst), na))
-		ex.vals[x] = n
+		ex.vals[x] = ex.asVal(n, x.Type())
 	case "min", "max":
 		a, b := ex.val(cc.Args[0]), ex.val(cc.Args[1])
-		if a.Sort != sInt || len(cc.Args) != 2 {
+		if (a.Sort != sInt && !isBV(a.Sort)) || len(cc.Args) != 2 {
 			unsupported("min/max on %s", a.Sort)
 		}
+		ai, bi := ex.ival(cc.Args[0]), ex.ival(cc.Args[1])
 		if f.Name() == "min" {
-			ex.setVal(x, ite(le(a, b), a, b))
+			ex.setVal(x, ite(le(ai, bi), a, b))
 		} else {
-			ex.setVal(x, ite(le(a, b), b, a))
+			ex.setVal(x, ite(le(ai, bi), b, a))
 		}
 	case "delete":
 		mt := cc.Args[0].Type().Underlying().(*types.Map)
